@@ -30,11 +30,16 @@ class Opq:
 
 
 class Sqrt:
-    def __init__(self, p):
+    """c * sqrt(p) with polynomials p, c (c defaults to 1)."""
+    def __init__(self, p, c=None):
         self.p = p
+        self.c = c if c is not None else Poly.const(1)
+
+    def square(self):
+        return self.p * self.c * self.c
 
     def __repr__(self):
-        return f'sqrt({self.p})'
+        return f'sqrt({self.p})' if self.c == Poly.const(1) else f'({self.c}) * sqrt({self.p})'
 
 
 def dtype_tables(src):
@@ -395,7 +400,17 @@ class _LoaderEval:
                 except ValueError:
                     pass
             if isinstance(a, Sqrt) and isinstance(b, Poly) and isinstance(n.op, ast.Pow) and b == Poly.const(2):
-                return a.p
+                return a.square()
+            # sqrt(p) * q, q * sqrt(p), sqrt(p) / q
+            try:
+                if isinstance(a, Sqrt) and isinstance(b, Poly) and isinstance(n.op, ast.Mult):
+                    return Sqrt(a.p, a.c * b)
+                if isinstance(b, Sqrt) and isinstance(a, Poly) and isinstance(n.op, ast.Mult):
+                    return Sqrt(b.p, b.c * a)
+                if isinstance(a, Sqrt) and isinstance(b, Poly) and isinstance(n.op, ast.Div):
+                    return Sqrt(a.p, a.c / b)
+            except ValueError:
+                pass
             return Opq(f'({_s(a)} {type(n.op).__name__} {_s(b)})')
         if isinstance(n, ast.UnaryOp) and isinstance(n.op, ast.USub):
             a = self.ev(n.operand)
@@ -427,7 +442,11 @@ class _LoaderEval:
                 for a in n.args:
                     self.ev(a)
                 return self.ev(n.func.value)
-            if cn in ('np.atleast_2d', 'np.asarray', 'np.float32', 'np.float64', 'np.array'):
+            if cn in ('np.atleast_2d', 'np.asarray', 'np.float32', 'np.float64', 'np.array', 'np.int64', 'int', 'float'):
+                # conversions of a value to another numeric type: the value (as an exact polynomial) is unchanged; a truncating int()
+                # of a non-integer is not modelled and only accepted for module constants and integer raw columns
+                for k in n.keywords:
+                    self.ev(k.value)
                 return self.ev(n.args[0])
             if cn == 'np.sqrt' and len(n.args) == 1:
                 a = self.ev(n.args[0])
